@@ -728,9 +728,18 @@ def baseStep (st : St) (args : List String) : St × String :=
     let (l, o) := Led.step st.led args
     ({ st with led := l }, o)
 
+/-- the follower's tip is not a block of the node's best chain (a reorganisation it has not been told about) -/
+def diverged (st : St) : Bool :=
+  (st.led.node.blockAt st.led.vol.best.height).map (·.id) != some st.led.vol.best.hash
+
+/-- methods that re-read a previous transaction from the node at the recorded (height, byte range): while the
+    follower has diverged the outcome depends on the byte layout of another block – class `deep` (as in Go) -/
+def staleLoc (m : String) : Bool := ["CreateRawTransaction", "SignRawTransaction", "GetTransactionFee"].contains m
+
 def doCall (st : St) (m : String) (a : List String) : St :=
   let r : Req := ⟨m, a⟩
   let cls := if m = "ImportWallet" then importClass st r else classOf st r
+  let cls := if staleLoc m && diverged st then "deep" else cls
   let st := applyCall st r cls
   { st with last := cls }
 
